@@ -40,6 +40,13 @@ def expHeader (f : Format) (conf lines : List (Str × Str)) (n : Str) : Option (
     | vs => some vs)
   | vs => some vs
 
+/-- the header lines as the format reads them: HTTP field lines of a raw request lose the optional whitespace
+around the value; `[k: v]` lines are already trimmed by DecodeHeader, JSON members are taken as they are -/
+def seenLines (f : Format) (lines : List (Str × Str)) : List (Str × Str) :=
+  match f with
+  | .raw => lines.map fun kv => (kv.1, trimHTTP kv.2)
+  | _ => lines
+
 def urlHost (f : Format) (e : Entry) : Str := (splitURL (urlOf f e)).1
 
 /-- the Host line of the entry, if any -/
